@@ -12,6 +12,9 @@ mod engines {
 mod props {
 	pub mod c07;
 	pub mod c13;
+	pub mod c14;
+	pub mod c15;
+	pub mod c16;
 }
 mod out;
 mod util;
@@ -37,6 +40,9 @@ fn main() {
 				props::c07::run(&mut out, &mut rng.fork(), thorough);
 			}
 			"C13" => props::c13::run(&mut out, &mut rng.fork(), thorough),
+			"C14" => props::c14::run(&mut out, &mut rng.fork(), thorough),
+			"C15" => props::c15::run(&mut out, &mut rng.fork(), thorough),
+			"C16" => props::c16::run(&mut out, &mut rng.fork(), thorough),
 			_ => {
 				eprintln!("unknown property {prop}");
 				std::process::exit(3);
